@@ -3,7 +3,7 @@
 C06 (exact part) — State.get fails for an error state and hands out the data otherwise.
 C18 (exact part) — State.with_filename records the file name and derives extension and media type from it."""
 from pyvc.dsl import *
-from contracts.c13_caches import SMeta, Data, ST
+from contracts.c13_caches import SMeta, Data, ST, state_wf
 
 TQ = Ref("TransformQuerySegment")
 SeqAR = Seq(Ref("ActionRequest"))
@@ -73,6 +73,9 @@ def _(self, filename):
     ensures(implies(has(filename, "."), rec_has(self.metadata, "mimetype")
                     and rec_get(self.metadata, "mimetype") == some(mime_of(some(lower(str_last(filename, ".")))))), "media-type-of-that-extension")
     ensures(implies(not has(filename, "."), self.metadata == rec_set(old(self.metadata), "filename", some(filename))), "nothing-else-changes-without-an-extension")
+    ensures(implies(old(state_wf(self.metadata)), state_wf(self.metadata))
+            and implies(old(rec_has(self.metadata, "is_error")), rec_has(self.metadata, "is_error")
+                        and rec_get(self.metadata, "is_error") == old(rec_get(self.metadata, "is_error"))), "the-standard-keys-and-the-error-flag-are-kept")
 
 
 prop("C18", fucs=["liquer.state.State.with_filename"])
